@@ -1,3 +1,5 @@
 import XtModel.Model.Wire
 import XtModel.Model.Encoding
 import XtModel.Props.C07
+import XtModel.Model.Cli
+import XtModel.Model.CliWire
